@@ -1393,6 +1393,10 @@ int ov_raw_seek(OggVorbis_File *vf,ogg_int64_t pos){
         ogg_stream_reset_serialno(&work_os,serialno);
         vf->ready_state=STREAMSET;
         firstflag=(pagepos<=vf->dataoffsets[link]);
+      }else if(vf->current_serialno==ogg_page_serialno(&og) &&
+               pagepos<=vf->dataoffsets[vf->current_link]){
+        /* same test when the link did not have to be re-identified */
+        firstflag=1;
       }
 
       ogg_stream_pagein(&vf->os,&og);
